@@ -23,6 +23,8 @@ type Placed struct {
 	Text string  // trimmed text
 	Page int     // 0-based page index
 	Y    float64 // PositionY of the text box
+	// Hidden: the run's own computed visibility is not `visible` (laid out, but must not be drawn)
+	Hidden bool
 }
 
 // PageTexts collects the text boxes of every page in tree order (placeholders traversed).
@@ -35,7 +37,7 @@ func PageTexts(pages []*bo.PageBox) [][]Placed {
 				if s == "" {
 					continue
 				}
-				out[pi] = append(out[pi], Placed{Tok: TokID(s), Text: s, Page: pi, Y: float64(tb.PositionY)})
+				out[pi] = append(out[pi], Placed{Tok: TokID(s), Text: s, Page: pi, Y: float64(tb.PositionY), Hidden: tb.Style.GetVisibility() != "visible"})
 			}
 		}
 	}
@@ -205,7 +207,11 @@ func drawJudge(texts [][]Placed, draws [][]string) string {
 	for i := range texts {
 		a := map[string]int{}
 		for _, t := range texts[i] {
-			a[t.Text]++
+			if !t.Hidden { // every VISIBLE run exactly once, hidden runs zero times
+				a[t.Text]++
+			} else if _, ok := a[t.Text]; !ok {
+				a[t.Text] = 0
+			}
 		}
 		for _, s := range draws[i] {
 			a[s]--
